@@ -133,6 +133,43 @@ pub fn sites(_tier: Tier) -> Vec<Site> {
                 }
             }));
     }
+    // the 6 bytes delivered in pieces: same track (or the same refusal) as from a plain cursor
+    {
+        let mut forms: Vec<Vec<u8>> = tracks.iter().filter_map(|(_, t)| wire(t)).collect();
+        forms.extend([b"BL1\0\0X".to_vec(), b"bl1\0\0\0".to_vec(), b"ZZ9\0\0\0".to_vec(), vec![0; 6], b"RO11XY".to_vec()]);
+        let forms = Arc::new(forms);
+        let n = forms.len() as u64 * 32 * 2;
+        sites.push(Site::new("short-reads", n,
+            "every variant's wire form and five non-codes x field at stream offset {0, 3} x every way a reader can deliver the 6 bytes in pieces (32 compositions)",
+            move |i, acc| {
+                acc.eval();
+                let f = &forms[(i / 64) as usize];
+                let off = if (i / 32) % 2 == 0 { 0usize } else { 3 };
+                let mask = (i % 32) << off;
+                let mut data = vec![0x55u8; off];
+                data.extend_from_slice(f);
+                data.extend_from_slice(&[0x66, 0x77]);
+                let plain = {
+                    let mut c = Cursor::new(&data[..]);
+                    c.set_position(off as u64);
+                    let r = Track::read_le(&mut c);
+                    (format!("{r:?}"), c.position() as usize)
+                };
+                let chopped = guard(|| {
+                    let mut c = crate::choppy::Choppy::new(data.clone(), mask, 64);
+                    let _ = std::io::Seek::seek(&mut c, std::io::SeekFrom::Start(off as u64));
+                    let r = Track::read_le(&mut c);
+                    (format!("{r:?}"), c.position())
+                });
+                let replay = json!({"site": "short-reads", "index": i, "bytes": hex(f), "offset": off, "cuts": mask >> off});
+                match chopped {
+                    Err(p) => acc.violate(i, "C14|short-read|panic".into(), p, replay),
+                    Ok(c) if c == plain => { acc.class("short-read-agrees"); acc.nontrivial(); },
+                    Ok(c) => acc.violate(i, "C14|short-read|differs-from-plain-read".into(),
+                        format!("{} read in pieces (cuts {:05b}) gives {} leaving the reader at {}, in one piece {} at {}", hex(f), mask >> off, c.0, c.1, plain.0, plain.1), replay),
+                }
+            }));
+    }
     sites
 }
 
